@@ -8,6 +8,9 @@
     adjugate/determinant per mode; every admissible solver class (diagonal, QR, LU, Cholesky incl. fall-back,
     LDL, sparse LU, CG with none/Jacobi/SOR/ILU, and auto_determine_solver dense and sparse) must return
     adj b / det for right-hand sides of shapes (n), (n,1), (n,3) with dependent columns, real and complex.
+[S]+[R] SolverLife.tla: one solver object is updated repeatedly with different admissible matrices; every solve must
+    read a factor of the matrix given last, of a kind valid for it (Cholesky success flag / LDL back-up, detected LDL
+    kind); stale-flag variants are refuted; every behaviour to a depth bound is replayed on every solver configuration.
 [O] CG with GeometricMultigrid and with an initial guess on FE matrices: residual of the requested system.
 """
 import concurrent.futures as cf
@@ -259,7 +262,132 @@ def multigrid_interpolation(chk, thorough):
                 chk.violation("C05/multigrid/interpolation", "grid %s ndof %d: interpolation operator differs from the specification" % (g, ndof), {"grid": g, "ndof": ndof})
 
 
+# ------------------------------------------------------------------------------------------------
+# life cycle of one solver object: repeated update() with different admissible matrices (SolverLife.tla)
+LIFE_CONFIGS = ["SolverDiagonal", "SolverDenseQR", "SolverDenseLU", "SolverDenseCholesky", "SolverDenseLDL(auto)",
+                "SolverDenseLDL(hermitian=True)", "SolverDenseLDL(hermitian=False)", "SolverSparseLU",
+                "CG", "CG+Jacobi", "CG+SOR", "CG+ILU", "CG(dense)"]
+LIFE_POOLS = {
+    "2x2real": [[[(2, 0), (1, 0)], [(1, 0), (2, 0)]],          # positive definite
+                [[(1, 0), (2, 0)], [(2, 0), (1, 0)]],          # symmetric indefinite with positive diagonal: Cholesky falls back
+                [[(2, 0), (0, 0)], [(0, 0), (3, 0)]],          # diagonal
+                [[(1, 0), (2, 0)], [(0, 0), (1, 0)]],          # general (upper triangular)
+                [[(3, 0), (-1, 0)], [(-1, 0), (1, 0)]]],       # positive definite
+    "2x2cplx": [[[(2, 0), (0, 1)], [(0, -1), (3, 0)]],         # Hermitian positive definite, not symmetric
+                [[(2, 0), (0, 1)], [(0, 1), (3, 0)]],          # complex symmetric, not Hermitian
+                [[(1, 0), (0, 2)], [(0, -2), (1, 0)]],         # Hermitian indefinite
+                [[(2, 0), (1, 0)], [(1, 0), (2, 0)]],          # real positive definite (Hermitian and symmetric)
+                [[(1, 1), (2, 0)], [(0, 1), (1, 0)]]],         # complex general
+    "3x3": [CURATED3[5], CURATED3[6], CURATED3[1], CURATED3[0], CURATED3[8],
+            [[(2, 0), (-1, 0), (0, 0)], [(-1, 0), (2, 0), (-1, 0)], [(0, 0), (-1, 0), (2, 0)]]],
+}
+
+
+def life_model(pool, depth, variant="faithful", emit=False):
+    consts = dict(Pool=tuple(g(m) for m in LIFE_POOLS[pool]), Configs=set(LIFE_CONFIGS), Depth=depth, LVariant=variant)
+    return tlc.mc("SolverLife", consts, invariants=["SolvesCurrent"] + (["EmitPool", "EmitLife"] if emit else []),
+                  properties=["SolveReadsCurrent"])
+
+
+def life_instance(cfg):
+    import pymoto as pym
+    S = pym.solvers
+    return {"SolverDiagonal": lambda: (S.SolverDiagonal(), False), "SolverDenseQR": lambda: (S.SolverDenseQR(), False),
+            "SolverDenseLU": lambda: (S.SolverDenseLU(), False), "SolverDenseCholesky": lambda: (S.SolverDenseCholesky(), False),
+            "SolverDenseLDL(auto)": lambda: (S.SolverDenseLDL(), False),
+            "SolverDenseLDL(hermitian=True)": lambda: (S.SolverDenseLDL(hermitian=True), False),
+            "SolverDenseLDL(hermitian=False)": lambda: (S.SolverDenseLDL(hermitian=False), False),
+            "SolverSparseLU": lambda: (S.SolverSparseLU(), True), "CG": lambda: (S.CG(tol=1e-11), True),
+            "CG+Jacobi": lambda: (S.CG(preconditioner=S.DampedJacobi(), tol=1e-11), True),
+            "CG+SOR": lambda: (S.CG(preconditioner=S.SOR(w=1.0), tol=1e-11), True),
+            "CG+ILU": lambda: (S.CG(preconditioner=S.ILU(), tol=1e-11), True),
+            "CG(dense)": lambda: (S.CG(tol=1e-11), False)}[cfg]()
+
+
+def replay_life(pool, beh):
+    """one behaviour of SolverLife.tla on one real solver object; every solve must answer for the matrix given last"""
+    cfg, steps = beh["cfg"], beh["steps"]
+    sv, sparse = life_instance(cfg)
+    mats = []
+    for e in pool:
+        A = cm(e["A"])
+        mats.append(A if e["cplx"] else A.real.copy())
+    with warnings.catch_warnings():
+        warnings.simplefilter("ignore")
+        for k, (op, i) in enumerate(steps):
+            A = mats[i - 1]
+            if op == "update":
+                try:
+                    sv.update(sps.csc_matrix(A) if sparse else A.copy())
+                except Exception as e:
+                    return "life/raise", "%s: update #%d (matrix %d of the pool) raised %s: %s; calls %s" % (cfg, k + 1, i, type(e).__name__, str(e)[:100], steps)
+                continue
+            n = A.shape[0]
+            real_only = sparse and not pool[i - 1]["cplx"] and any(t in cfg for t in ("LU", "SOR"))
+            for trans in ("N", "T", "H"):
+                adj, det = cm(pool[i - 1]["sol"][trans]["adj"]), complex(*pool[i - 1]["sol"][trans]["det"])
+                for rname, b in [q for j, q in enumerate(rhs_pool(n, cplx_ok=not real_only)) if j in (0, 2, 3)]:
+                    xe = (adj @ b) / det
+                    try:
+                        x = np.asarray(sv.solve(b.copy(), trans=trans))
+                    except Exception as e:
+                        return "life/raise", "%s: solve(%s, trans=%s) as call #%d raised %s: %s; calls %s" % (cfg, rname, trans, k + 1, type(e).__name__, str(e)[:100], steps)
+                    tol = 1e-6 if cfg.startswith("CG") else 1e-9
+                    if x.shape != b.shape or not np.all(np.isfinite(x)) or np.abs(x - xe).max() > tol * max(1.0, np.abs(xe).max()):
+                        return "life/" + cfg.split("(")[0].split("+")[0], ("%s: after the calls %s, solve(%s, trans=%s) does not solve the system of the matrix given last "
+                                "(matrix %d of the pool, A = %s): max error %.3g") % (cfg, steps[:k], rname, trans, i, A.tolist(), float(np.abs(x - xe).max()) if x.shape == b.shape else float("nan"))
+    return None
+
+
+def _life_chunk(arg):
+    pool, behs = arg
+    out = []
+    for b in behs:
+        try:
+            out.append(replay_life(pool, b))
+        except Exception as e:
+            out.append(("life/harness", "%s: %s" % (type(e).__name__, str(e)[:200])))
+    return out
+
+
+def solver_life(chk, thorough):
+    depth = 5 if thorough else 4
+    # the specification refutes the two ways of keeping a stale flag
+    for variant, pool in (("stale_success", "2x2real"), ("sticky_kind", "2x2cplx")):
+        name, mod, cfg = life_model(pool, 4, variant=variant)
+        r = tlc.run(name, cfg, extra_modules={name: mod}, expect_violation=True)
+        if r.violated is None:
+            raise tlc.TLCError("SolverLife variant %s is not refuted" % variant)
+        chk.extra.setdefault("refuted_variants", []).append("SolverLife/" + variant)
+
+    def emit_pool(pool):
+        name, mod, cfg = life_model(pool, depth, emit=True)
+        return pool, tlc.run(name, cfg, extra_modules={name: mod}, workers=1, timeout=3000)
+    with cf.ThreadPoolExecutor(max_workers=3) as ex:
+        for pool, r in ex.map(emit_pool, list(LIFE_POOLS)):
+            if r.violated is not None:
+                raise tlc.TLCError("SolverLife (%s) violates %s\n%s" % (pool, r.violated, r.stdout[-2000:]))
+            chk.states += r.distinct
+            chk.transitions += r.generated
+            chk.tlc_runs.append({"module": "SolverLife", "label": "life cycle " + pool, "generated": r.generated, "distinct": r.distinct, "wall_s": round(r.wall, 2)})
+            pinfo = [v[0] for tag, v in r.printed if tag == "POOL"][0]
+            behs = [v[0] for tag, v in r.printed if tag == "LIFE"]
+            behs = [b for b in behs if any(s[0] == "solve" for s in b["steps"])]
+            parts = par.chunks(behs, 32)
+            for part_b, part in zip(parts, par.pmap(_life_chunk, [(pinfo, p) for p in parts])):
+                for b, res in zip(part_b, part):
+                    chk.case({"pool": pool, "life": b}, nontrivial=sum(1 for s in b["steps"] if s[0] == "update") > 1)
+                    if res:
+                        chk.violation("C05/" + res[0], res[1], {"life": b, "pool": pool, "pinfo": pinfo})
+
+
 def run(chk, replay=None):
+    if replay is not None and "life" in replay:
+        res = replay_life(replay["pinfo"], replay["life"])
+        chk.case({"life": replay["life"]})
+        if res:
+            chk.violation("C05/" + res[0], res[1], replay)
+        return
     if replay is not None and "multigrid" not in str(replay):
         res = check_matrix(replay)
         chk.case({"A": replay["A"]})
@@ -294,5 +422,6 @@ def run(chk, replay=None):
                     chk.case({"A": c["A"]}, nontrivial=not c["cls"]["diag"])
                     if res:
                         chk.violation("C05/" + res[0], res[1], c)
+    solver_life(chk, thorough)
     multigrid_interpolation(chk, thorough)
     observations(chk, chk.seed + 2, 12 if thorough else 4)
